@@ -26,6 +26,22 @@ def check_C15(run):
             cases, g = stage_gen_trees(run, kinds, depth, ws=0, sample=n, name="gen_deep%d" % depth)
             res = stage_fold_groups(run, cases, name="fold_deep%d" % depth)
             stage_judge_fold(run, res, name="judge_fold_deep%d" % depth)
+    # field groups (with ~ / ^ inside them) and the value zoo (NUL, %, non-ASCII, numbers in every spelling ...) as fold inputs
+    cases, g = stage_gen_trees(run, ["bare", "feq", "FGROUP"], 2, ws=0, name="gen_fgroup")
+    res = stage_fold_groups(run, cases, name="fold_fgroup")
+    stage_judge_fold(run, res, name="judge_fold_fgroup")
+    cases, g = stage_gen_trees(run, ["bare", "feq", "flist", "FGROUP"], 3, ws=0, sample=1500 if run.tier == "quick" else 15000, name="gen_fgroup3")
+    res = stage_fold_groups(run, cases, name="fold_fgroup3")
+    stage_judge_fold(run, res, name="judge_fold_fgroup3")
+    zin = os.path.join(run.work, "zoo_in.ndjson")
+    with open(zin, "w") as f:
+        for q in checks_parser.zoo_texts() + checks_parser.fragment_texts():
+            f.write(json.dumps(q) + "\n")
+    res = os.path.join(run.work, "fold_zoo.ndjson")
+    sz = run.harness(["fold-text", "-in", zin, "-out", res])
+    run.stage("fold_zoo", **sz)
+    run.evaluations += sz.get("renders", 0)
+    stage_judge_fold(run, res, name="judge_fold_zoo")
     # trees Parse cannot build: every schema document of GenJson that decodes and validates (lists of patterns, literals in odd places ...)
     import checks_json
     d = run.sub("gen_json")
